@@ -3,6 +3,9 @@ package main
 import (
 	"path/filepath"
 	"runtime"
+	"strings"
+
+	"golang.org/x/tools/go/ssa"
 )
 
 // C14 — containers: whole-effect critical sections for the concurrent map,
@@ -23,12 +26,14 @@ func init() { register("C14", checkC14) }
 
 func checkC14(c *Ctx) {
 	r := c.R
-	r.Explanation = "Decides two structural necessary conditions of C14. (1) For cmap.mapimpl.m, cmap.atomicMap.items, cmap.AtomicValue.value and slice.slice.data: every access in every function of the module happens with the owning RWMutex held (write mode for stores, map updates, delete, clear), and every method touches the field inside ONE critical section, or — the accepted double-checked idiom — a later section re-reads the field before writing it. A method whose effect is split across lock releases, a writer under RLock, or an unlocked read cannot be linearizable. (2) ring/ring.go is declaration-by-declaration identical to the toolchain's container/ring after erasing type parameters, comments and local names. NOT decided: linearizability as such (these are necessary, not sufficient, conditions); the buffered ring's FIFO/grow/shrink behaviour (runtime model equivalence, no sound structural clause)."
+	r.Explanation = "Decides two structural necessary conditions of C14. (1) For cmap.mapimpl.m, cmap.atomicMap.items, cmap.AtomicValue.value and slice.slice.data: every access in every function of the module happens with the owning RWMutex held (write mode for stores, map updates, delete, clear), and every method touches the field inside ONE critical section, or — the accepted double-checked idiom — a later section re-reads the field before writing it. A method whose effect is split across lock releases, a writer under RLock, or an unlocked read cannot be linearizable. (2) ring/ring.go is declaration-by-declaration identical to the toolchain's container/ring after erasing type parameters, comments and local names. (3) For the buffered ring only bookkeeping necessary conditions: AppendBack stores the value at Move(end) and increments end exactly once, RemoveFront advances the head by one Next() and decrements end exactly once, Len returns end, Front returns the head's value, and the grow/shrink decisions depend only on the live ring length or on fields that are updated in both the linking and the unlinking branch (a capacity cache updated on growth only goes stale after a shrink). NOT decided: linearizability as such (these are necessary, not sufficient, conditions); the buffered ring's FIFO/grow/shrink behaviour as model equivalence."
 	r.Assumptions = append(r.Assumptions,
 		"lock identity is (struct type, field): two instances of one type are not distinguished; adequate because each guarded field lives in the struct that owns the lock",
 		"interface-dispatched calls do not acquire or release the tracked locks")
 	r.Rule("C14.guard", "guarded-by: accesses to the container's storage field need its RWMutex (W for writes)", 19)
 	r.Rule("C14.section", "whole-effect: all accesses of a method lie in one critical section, or later write sections re-read first (double check)", 19)
+	r.Rule("C14.buffered-count", "Buffered: AppendBack counts one element in, RemoveFront one out and advances the head by exactly one; Len/Front read end / the head", 4)
+	r.Rule("C14.buffered-capacity", "Buffered: growth/shrink decisions use the live ring length, or a capacity field that is updated wherever the ring is linked AND unlinked", 2)
 	r.Rule("C14.ring-iso", "ring/ring.go ≡ $GOROOT/src/container/ring/ring.go modulo generics", 10)
 
 	specs := c14Specs(c.P.ModPath)
@@ -45,6 +50,8 @@ func checkC14(c *Ctx) {
 	CompareIso(r, "C14.ring-iso", filepath.Join(c.P.Dir, "ring", "ring.go"), ref, "ring/ring.go",
 		map[string]string{"T": "any"}, map[string]bool{"Ring": true, "New": true})
 
+	c14Buffered(c)
+
 	c.Fixture("locks", func(fp *Prog, fr *Report) {
 		fe := NewLockEngine(fp)
 		fe.Run()
@@ -59,4 +66,148 @@ func fixtureLockSpecs(mod string) []GuardSpec {
 		{Field: FieldID{mod + ".box", "m"}, Lock: mod + ".box.mu"},
 		{Field: FieldID{mod + ".box", "n"}, Lock: mod + ".box.mu"},
 	}
+}
+
+// c14Buffered: bookkeeping necessary conditions of ring.Buffered.
+func c14Buffered(c *Ctx) {
+	r, p := c.R, c.P
+	bt := p.ModPath + "/ring.Buffered"
+	end := FieldID{bt, "end"}
+	ringF := FieldID{bt, "ring"}
+	countStores := func(fn *ssa.Function, f FieldID, delta int) (exactlyOnce bool) {
+		ff := &FlagFlow{Fn: fn, Must: false, Entry: 1 << 0, Transfer: func(in ssa.Instruction, st uint64) uint64 {
+			s, ok := in.(*ssa.Store)
+			if !ok {
+				return st
+			}
+			d := refDelta(s, f)
+			if d == 0 {
+				return st
+			}
+			return mapStates(st, func(n int) int {
+				if d != delta || n == 3 {
+					return 3
+				}
+				if n >= 2 {
+					return 2
+				}
+				return n + 1
+			})
+		}}
+		ff.Run()
+		ok, n := true, 0
+		ff.AtReturns(func(ret *ssa.Return, st uint64) {
+			n++
+			if st != 1<<1 {
+				ok = false
+			}
+		})
+		return ok && n > 0
+	}
+	app := p.Func("ring", "Buffered.AppendBack")
+	rem := p.Func("ring", "Buffered.RemoveFront")
+	r.Check(countStores(app, end, 1), "C14.buffered-count", "ring.Buffered.AppendBack end", p.Pos(app.Pos()), "end incremented exactly once on every path", "AppendBack does not count the appended element exactly once (Len and the position of the next element go wrong)")
+	r.Check(countStores(rem, end, -1), "C14.buffered-count", "ring.Buffered.RemoveFront end", p.Pos(rem.Pos()), "end decremented exactly once on every path", "RemoveFront does not count the removed element out exactly once")
+	// head advance: every store to b.ring in RemoveFront is Next(load b.ring); exactly one
+	adv, nAdv := true, 0
+	allInstrs(rem, func(in ssa.Instruction) {
+		st, ok := in.(*ssa.Store)
+		if !ok {
+			return
+		}
+		fa, ok := st.Addr.(*ssa.FieldAddr)
+		if !ok || fieldIDOfAddr(fa) != ringF {
+			return
+		}
+		nAdv++
+		call, ok := st.Val.(*ssa.Call)
+		if !ok || calleeObj(call) == nil || calleeObj(call).Name() != "Next" {
+			adv = false
+			return
+		}
+		if id, _, ok := fieldOfValue(call.Call.Args[0]); !ok || id != ringF {
+			adv = false
+		}
+	})
+	r.Check(adv && nAdv == 1, "C14.buffered-count", "ring.Buffered.RemoveFront head", p.Pos(rem.Pos()), "head advances by exactly one Next()", "RemoveFront does not advance the head of the ring by exactly one element")
+	// Len returns end
+	lenFn := p.Func("ring", "Buffered.Len")
+	okLen := false
+	allInstrs(lenFn, func(in ssa.Instruction) {
+		if ret, ok := in.(*ssa.Return); ok && len(ret.Results) == 1 {
+			if id, _, ok := fieldOfValue(ret.Results[0]); ok && id == end {
+				okLen = true
+			}
+		}
+	})
+	r.Check(okLen, "C14.buffered-count", "ring.Buffered.Len", p.Pos(lenFn.Pos()), "Len returns end", "Len no longer returns the element count")
+
+	// capacity decisions
+	for _, spec := range []struct {
+		fn            *ssa.Function
+		callee, other string
+		otherFn       *ssa.Function
+	}{{app, "Link", "Unlink", rem}, {rem, "Unlink", "Link", app}} {
+		construct := FuncName(p, spec.fn) + " " + spec.callee + " decision"
+		var blk *ssa.BasicBlock
+		allInstrs(spec.fn, func(in ssa.Instruction) {
+			if call, ok := in.(*ssa.Call); ok && calleeObj(call) != nil && calleeObj(call).Name() == spec.callee && !call.Call.IsInvoke() {
+				blk = call.Block()
+			}
+		})
+		if blk == nil {
+			r.Violation("C14.buffered-capacity", construct, p.Pos(spec.fn.Pos()), "the ring is no longer "+strings.ToLower(spec.callee)+"ed: the buffer cannot grow/shrink")
+			continue
+		}
+		// fields (other than end/ring/bsize) read by the conditions dominating the block
+		why := ""
+		for _, dc := range domConds(blk) {
+			seen := map[ssa.Value]bool{}
+			var walk func(v ssa.Value)
+			walk = func(v ssa.Value) {
+				if v == nil || seen[v] {
+					return
+				}
+				seen[v] = true
+				if id, _, ok := fieldOfValue(v); ok && id.Type == bt {
+					if id.Field != "end" && id.Field != "ring" && id.Field != "bsize" {
+						// a cached capacity-like field: must be stored in the block that links and in the block that unlinks
+						if !c14StoredNearCall(spec.fn, id, spec.callee) || !c14StoredNearCall(spec.otherFn, id, spec.other) {
+							why = "the decision reads " + id.String() + ", which is not updated both where the ring is linked (grown) and where it is unlinked (shrunk): after the first shrink/growth the cached value no longer equals the ring's real length, elements are written over live ones or Front/RemoveFront return the wrong element"
+						}
+					}
+					return
+				}
+				if in, ok := v.(ssa.Instruction); ok {
+					for _, op := range in.Operands(nil) {
+						walk(*op)
+					}
+				}
+			}
+			walk(dc.If.Cond)
+		}
+		r.Check(why == "", "C14.buffered-capacity", construct, p.Pos(instrPos(blk.Instrs[0])), "decision depends only on end, bsize and the live ring (or on fields maintained on both growth and shrink)", why)
+	}
+}
+
+// c14StoredNearCall: fn stores field f in the block that calls callee (or in a block dominated by it).
+func c14StoredNearCall(fn *ssa.Function, f FieldID, callee string) bool {
+	var blk *ssa.BasicBlock
+	allInstrs(fn, func(in ssa.Instruction) {
+		if call, ok := in.(*ssa.Call); ok && calleeObj(call) != nil && calleeObj(call).Name() == callee && !call.Call.IsInvoke() {
+			blk = call.Block()
+		}
+	})
+	if blk == nil {
+		return false
+	}
+	found := false
+	allInstrs(fn, func(in ssa.Instruction) {
+		if st, ok := in.(*ssa.Store); ok {
+			if fa, ok := st.Addr.(*ssa.FieldAddr); ok && fieldIDOfAddr(fa) == f && (st.Block() == blk || blk.Dominates(st.Block())) {
+				found = true
+			}
+		}
+	})
+	return found
 }
